@@ -325,14 +325,16 @@ func (cachehist) Gen(r *Rng, cfg GenConfig) any {
 		runT := CHOp{Op: "run", Tasks: []string{t.Name}, JSON: r.Chance(2, 3)}
 		runAll := CHOp{Op: "run", Tasks: Shuffled(r, names), JSON: r.Chance(2, 3)}
 		switch r.Intn(5) {
-		case 0: // every input disappears, the task succeeds on the empty set, the same inputs come back
+		case 0: // every input disappears, the task succeeds on the empty set (forced or not), the same inputs come back
 			saved := map[string]string{}
 			emit(runT)
 			for _, x := range fs {
 				saved[x] = disk[x]
 				emit(CHOp{Op: "delete", Path: x})
 			}
-			emit(runT)
+			mid := runT
+			mid.Force = r.Chance(1, 2)
+			emit(mid)
 			for _, x := range fs {
 				emit(CHOp{Op: "write", Path: x, Content: saved[x]})
 			}
